@@ -367,7 +367,10 @@ func (c *c19Corpus) String() string {
 // neighbouring bytes) and registers a guard that verifies afterwards that nothing outside the
 // argument's len was written.
 
-type c19Guards struct{ fs []func() bool }
+type c19Guards struct {
+	fs    []func() bool
+	alias bool // a result of the call shares memory with one of its arguments (within their capacities)
+}
 
 func (g *c19Guards) ok() bool {
 	for _, f := range g.fs {
